@@ -195,22 +195,27 @@ theorem walkLoop_start (e : Env) (wf : WF e) (t0 : Nat) (B : Int) (hB : e.start 
 /-- the dependency bound of a forward task without a start of its own, in state `σ` -/
 def boundOf (e : Env) (σ : St) (t : Nat) : Int :=
   match (σ.tst t).start with
-  | some s => earliestStart σ (e.taskD t).allDeps (max e.start s)
-  | none => earliestStart σ (e.taskD t).allDeps e.start
+  | some s => earliestStart e σ (e.taskD t).allDeps (max e.start s)
+  | none => earliestStart e σ (e.taskD t).allDeps e.start
 
 theorem boundOf_ge_start (e : Env) (σ : St) (t : Nat) : e.start ≤ boundOf e σ t := by
   unfold boundOf
   split
-  · exact Int.le_trans (Int.le_max_left _ _) (earliestStart_ge σ _ _)
-  · exact earliestStart_ge σ _ _
+  · exact Int.le_trans (Int.le_max_left _ _) (earliestStart_ge e σ _ _)
+  · exact earliestStart_ge e σ _ _
 
-theorem boundOf_ge_dep (e : Env) (σ : St) (t : Nat) (dp : Dep) (hd : dp ∈ (e.taskD t).allDeps) (dt : Int)
+theorem boundOf_ge_depDate (e : Env) (σ : St) (t : Nat) (dp : Dep) (hd : dp ∈ (e.taskD t).allDeps) (dt : Int)
     (hdt : (if dp.onstart then (σ.tst dp.target).start else (σ.tst dp.target).stop) = some dt) :
-    dt + dp.gap ≤ boundOf e σ t := by
+    depDate e dp dt ≤ boundOf e σ t := by
   unfold boundOf
   split
-  · exact earliestStart_ge_dep σ _ _ dp hd dt hdt
-  · exact earliestStart_ge_dep σ _ _ dp hd dt hdt
+  · exact earliestStart_ge_depDate e σ _ _ dp hd dt hdt
+  · exact earliestStart_ge_depDate e σ _ _ dp hd dt hdt
+
+theorem boundOf_ge_dep (e : Env) (wf : WF e) (σ : St) (t : Nat) (dp : Dep) (hd : dp ∈ (e.taskD t).allDeps) (dt : Int)
+    (hdt : (if dp.onstart then (σ.tst dp.target).start else (σ.tst dp.target).stop) = some dt) :
+    dt + dp.gap ≤ boundOf e σ t :=
+  Int.le_trans (depDate_ge e wf.G_pos dp dt) (boundOf_ge_depDate e σ t dp hd dt hdt)
 
 theorem initCursor_forward (e : Env) (σ : St) (t : Nat) (hf : (σ.tst t).forward = true)
     (hnp : (e.taskD t).startProvided = false) : initCursor e σ t = cursorOf e (boundOf e σ t) := by
